@@ -78,6 +78,11 @@ def run(c, prog, ctx):
               or (ret == "hashes::Sha256d::hash(encode::serialize(arg1))" and not effs))
         c.inst("R1.serialize-hash", hp, ok, "sha256d engine fed exactly once with consensus_encode(obj): returns %s, engine writes %s" % (ret, effs), f.where(), f.path)
     c.inst("R1.serialize-hash", "every leaf goes through a checked hash helper", len(helpers) >= 1, "helpers %s" % sorted(helpers), None, "dynafed::*::serialize_hash")
+    # the leaves are hashes of the *canonical* serialization of scripts and byte vectors: their length prefix is the compact size
+    # written by WriteExt::emit_varint, whose boundary table is C01's R6.emit-varint-* (a prefix in a longer form changes every root
+    # over an item of that length while Full, Compact and direct computation still agree with each other)
+    from . import c01 as _c01
+    c.borrow(_c01, "C01", prog, ctx, lambda rule, k: rule in ("R6.emit-varint-bounds", "R6.emit-varint-table"), "R1.length-prefix", 2)
     HRE = r"dynafed::[A-Za-z_:]*serialize_hash"
     # wrapper views
     for w in ("dynafed::ElidedRoot", "dynafed::ParamsRoot", "block::DynafedRoot"):
